@@ -5,4 +5,5 @@ cd "$(dirname "$0")"
 export GOFLAGS=-mod=mod GOPROXY=off GOSUMDB=off GOTOOLCHAIN=local
 mkdir -p bin evidence replays
 (cd tools/instrument && go1.26.8 build -o ../../bin/instrument .)
+(cd tools/crashsup && go build -o ../../bin/crashsup .)
 ./check build
